@@ -221,6 +221,7 @@ static var Thread_Init_Run(var self) {
   struct Thread* t = self;  
   pthread_setspecific(Thread_Key_Wrapper, t);
   t->is_running = true;
+  CELLO_VERIF_POINT(CELLO_VP_THREAD_RUN_BEGIN, t);
   
 #ifndef CELLO_NGC
   var bottom = NULL;
@@ -233,6 +234,7 @@ static var Thread_Init_Run(var self) {
   del_raw(t->args);
   t->args = NULL;
   
+  CELLO_VERIF_POINT(CELLO_VP_THREAD_RUN_END, t);
   del_raw(exc);
   
 #ifndef CELLO_NGC
@@ -294,6 +296,7 @@ static var Thread_Call(var self, var args) {
   /* Setup Thread Local Storage */
   
   if (not Thread_TLS_Key_Created) {
+    CELLO_VERIF_POINT(CELLO_VP_THREAD_KEY_CREATE, &Thread_TLS_Key_Created);
     Thread_TLS_Key_Create();
     Thread_TLS_Key_Created = true;
     atexit(Thread_TLS_Key_Delete);
@@ -318,6 +321,7 @@ static var Thread_Call(var self, var args) {
   /* Setup Thread Local Storage */
   
   if (not Thread_TLS_Key_Created) {
+    CELLO_VERIF_POINT(CELLO_VP_THREAD_KEY_CREATE, &Thread_TLS_Key_Created);
     Thread_TLS_Key_Create();
     Thread_TLS_Key_Created = true;
     atexit(Thread_TLS_Key_Delete);
@@ -351,6 +355,7 @@ static void Thread_Main_Del(void) {
 static var Thread_Current(void) {
   
   if (not Thread_TLS_Key_Created) {
+    CELLO_VERIF_POINT(CELLO_VP_THREAD_KEY_CREATE, &Thread_TLS_Key_Created);
     Thread_TLS_Key_Create();
     Thread_TLS_Key_Created = true;
     atexit(Thread_TLS_Key_Delete);
@@ -380,6 +385,7 @@ static var Thread_Current(void) {
   if (wrapper is NULL) {
   
     if (Thread_Main is NULL) {
+      CELLO_VERIF_POINT(CELLO_VP_THREAD_MAIN_CREATE, &Thread_Main);
       Thread_Main = new_raw(Thread);
       Exception_Main = new_raw(Exception);
       atexit(Thread_Main_Del);
